@@ -134,8 +134,8 @@ func (its *PushPullHandler) initialize(retCh chan *model.PushPullPack) errors.Or
 func (its *PushPullHandler) finalize() {
 	if r := recover(); r != nil {
 		its.ctx.L().Errorf("recover panic [%v]: %v", r, string(debug.Stack()))
-
-		return
+		// the client still gets an answer and the key is unlocked
+		its.err = errors.PushPullAbortionOfServer.New(its.ctx.L(), fmt.Sprintf("%v", r))
 	}
 	defer its.lock.Unlock()
 	if its.err == nil {
@@ -189,11 +189,11 @@ func (its *PushPullHandler) process(retCh chan *model.PushPullPack) {
 
 	defer its.finalize()
 
-	if its.err = its.validatePushPullPack(); its.err != nil {
+	if its.err = its.initialize(retCh); its.err != nil {
 		return
 	}
 
-	if its.err = its.initialize(retCh); its.err != nil {
+	if its.err = its.validatePushPullPack(); its.err != nil {
 		return
 	}
 
@@ -332,6 +332,9 @@ func (its *PushPullHandler) processSubscribeOrCreate(code pushPullCase) errors.O
 		case caseAllMatchedNotVisible: //
 		default:
 		}
+	}
+	if its.datatypeDoc == nil {
+		return errors.PushPullAbortionOfClient.New(its.ctx.L(), "no datatype: "+its.Key)
 	}
 	return its.initClientInfoWithDatatypeDoc()
 }
